@@ -205,7 +205,19 @@ def _time_after(eng, fr, st, name, args, rtypes, ins):
 
 @model("time.NewTimer")
 def _new_timer(eng, fr, st, name, args, rtypes, ins):
-    return NotImplemented
+    v = st.fresh(rtypes[0], "timer")
+    st.assume(z3.Not(to_bool(v.nil)))
+    tv = st.load(v)
+    if isinstance(tv, StructV) and "C" in tv.f and isinstance(tv.f["C"], ChanV):
+        ch = tv.f["C"]
+        st.assume(z3.Not(to_bool(ch.nil)))
+        st.ghost.setdefault("ready_chans", set()).add(str(ch.ref))
+    return [(st, v)]
+
+
+@model("(*time.Timer).Stop", "(*time.Timer).Reset")
+def _timer_stop(eng, fr, st, name, args, rtypes, ins):
+    return [(st, z3.Const(fresh_name("timerstop"), z3.BoolSort()))]
 
 
 @model("(error).Error")
